@@ -602,22 +602,6 @@ end arb
 
 /-! ### source pin and satisfiability of the hypotheses -/
 
-/-- **Source pin**: subscripts and operand texts of the three contractions as read from the Python
-source by the translator are the ones the model was written for (in particular the sign and the
-transposition in `util.cexp(-np.asarray(dt) * eigvals.T)` and
-`util.cexp((self.t[idx] - t) * self.eigvals[idx].T)`). -/
-theorem source_shape :
-    Gen.pulse_sequence_PulseSequence_diagonalize_0_subscripts = "ijk,il->ljk" ∧
-    Gen.pulse_sequence_PulseSequence_diagonalize_0_args = ["self.c_opers", "self.c_coeffs"] ∧
-    Gen.numeric_diagonalize_0_subscripts = "lij,jl,lkj->lik" ∧
-    Gen.numeric_diagonalize_0_args
-      = ["eigvecs", "util.cexp(-np.asarray(dt) * eigvals.T)", "eigvecs.conj()"] ∧
-    Gen.pulse_sequence_PulseSequence_propagator_at_arb_t_0_subscripts = "lij,jl,lkj->lik" ∧
-    Gen.pulse_sequence_PulseSequence_propagator_at_arb_t_0_args
-      = ["self.eigvecs[idx]", "util.cexp((self.t[idx] - t) * self.eigvals[idx].T)",
-         "self.eigvecs[idx].conj()"] :=
-  ⟨rfl, rfl, rfl, rfl, rfl, rfl⟩
-
 /-- the `eigh` contract is satisfiable by a non-diagonal instance: `σ_x = W diag(1, -1) W†` with
 `W = (1/√2) [[1, 1], [1, -1]]`. -/
 example : IsEigh (!![0, 1; 1, 0] : Matrix (Fin 2) (Fin 2) ℂ) ![1, -1]
